@@ -19,34 +19,57 @@ def step_rule(ctx, rep, fn, direction, keylen):
         rep.violation("traversal", fn, "loop", "expected exactly one loop over the data, found %d" % len(loops), body.loc())
         return
     lp = loops[0]
-    trav = strip(lp["init"] or ("?",)) == ("param", 1) and "slice::IterMut" in (lp["resolved"] or "") and lp["init_call"] is not None and lp["init_call"][1].endswith("for &'a mut [T]>::into_iter")
-    rep.check(trav, "traversal", fn, "in-order-whole-slice", "plain `for b in data`: in-order, every element once", "data is not traversed by a plain in-order IterMut over the whole slice (%s)" % lp["resolved"], body.loc(lp["next_bb"]))
     head = lp["next_bb"]
     idx_root = ("deref", ("param", 3))
     prev_root = ("deref", ("param", 4))
-    # key operand: by value (param 2) or by reference (deref param 2)
+    data_root = ("deref", ("param", 1))
     kty = body.local_ty(2).peel_refs()
     klen = kty.len if kty.k == "array" else None
     rep.check(klen == keylen, "step", fn, "key-length", "key is [u8; %s]" % klen, "key array has length %s, expected %d" % (klen, keylen), body.loc())
-    elem_in = ("deref", lp["elem"])
     st_in = se.in_state.get(head, {})
     phi_idx = st_in.get(idx_root)
     phi_prev = st_in.get(prev_root)
     if not (phi_idx and phi_idx[0] == "phi" and phi_prev and phi_prev[0] == "phi"):
         rep.violation("step", fn, "state", "index / previous value are not loop-carried state (no update per byte?)", body.loc())
         return
-    env = {strip(phi_idx): "idx", strip(phi_prev): "prev", strip(elem_in): "in", ("param", 2): "key"}
+    src = strip(lp["init_call"][2][0]) if lp["init_call"] is not None else None
+    mode = None
+    if strip(lp["init"] or ("?",)) == ("param", 1) and "slice::IterMut" in (lp["resolved"] or "") and lp["init_call"] is not None and lp["init_call"][1].endswith("for &'a mut [T]>::into_iter"):
+        mode = "iter"
+        elem_in = ("deref", lp["elem"])
+        writes = [(k, v) for k, v in se.assigns.items() if v[0] == elem_in or (v[0][0] == "deref" and strip(v[0][1]) == strip(lp["elem"]))]
+        in_term = strip(elem_in)
+        out_terms = [w[1][1] for w in writes]
+        wb = writes[0][0][0] if writes else None
+    elif src is not None and src[0] == "agg" and src[2] == "std::ops::Range" and util.numnorm(src[4][0])[:2] == ("int", 0):
+        # index loop `for i in 0..data.len()`: element i is read and written exactly once
+        from ranges import strip_len
+
+        end = util.numnorm(src[4][1])
+        phi_data = st_in.get(data_root)
+        i_t = strip(lp["elem"])
+        if end[0] == "len" and strip_len(end) == ("param", 1) and phi_data is not None and phi_data[0] == "phi":
+            ins = se.phi_inputs[(phi_data[2], phi_data[3])]
+            steps = [v for p_, v in ins.items() if v != data_root]
+            if len(steps) == 1 and steps[0][0] == "upd" and steps[0][1] == phi_data and steps[0][2][0] == "i" and strip(steps[0][2][1]) == i_t:
+                mode = "index"
+                in_term = ("index", strip(phi_data), i_t)
+                out_terms = [steps[0][3]]
+                writes = [(k, v) for k, v in se.assigns.items() if v[0][0] == "index" and strip(v[0][2]) == i_t and v[0][1] == data_root]
+                wb = writes[0][0][0] if writes else None
+    rep.check(mode is not None, "traversal", fn, "in-order-whole-slice", "plain in-order traversal of the whole slice, every element once (%s loop)" % mode, "data is not traversed by a plain in-order loop over the whole slice (%s)" % lp["resolved"], body.loc(lp["next_bb"]))
+    if mode is None:
+        return
+    env = {strip(phi_idx): "idx", strip(phi_prev): "prev", in_term: "in", ("param", 2): "key"}
     ins_idx = se.phi_inputs[(phi_idx[2], phi_idx[3])]
     ins_prev = se.phi_inputs[(phi_prev[2], phi_prev[3])]
     back_idx = [v for p, v in ins_idx.items() if v != idx_root]
     back_prev = [v for p, v in ins_prev.items() if v != prev_root]
     init_ok = any(v == idx_root for v in ins_idx.values()) and any(v == prev_root for v in ins_prev.values())
-    # the byte written back
-    writes = [(k, v) for k, v in se.assigns.items() if v[0] == elem_in or (v[0][0] == "deref" and strip(v[0][1]) == strip(lp["elem"]))]
-    if len(writes) != 1 or len(back_idx) != 1 or len(back_prev) != 1:
-        rep.violation("step", fn, "shape", "per-byte step is not one store to the byte, one index update, one previous-value update (%d/%d/%d)" % (len(writes), len(back_idx), len(back_prev)), body.loc())
+    if len(out_terms) != 1 or len(back_idx) != 1 or len(back_prev) != 1 or wb is None:
+        rep.violation("step", fn, "shape", "per-byte step is not one store to the byte, one index update, one previous-value update (%d/%d/%d)" % (len(out_terms), len(back_idx), len(back_prev)), body.loc())
         return
-    out = arith.norm(writes[0][1][1], env)
+    out = arith.norm(out_terms[0], env)
     nidx = arith.norm(back_idx[0], env)
     nprev = arith.norm(back_prev[0], env)
     kb = ("idx", S("key"), S("idx"))
@@ -67,7 +90,6 @@ def step_rule(ctx, rep, fn, direction, keylen):
     # every iteration performs the three stores (they dominate the back edge)
     idom = cfg.dominators(body)
     be = [e for e in cfg.back_edges(body) if e[1] == head or cfg.dominates(idom, head, e[0])]
-    wb = writes[0][0][0]
     rep.check(bool(be) and all(cfg.dominates(idom, wb, t) for t, h in be), "step", fn, "unconditional", "the step is executed for every byte", "the byte/state update is conditional inside the loop", body.loc(wb))
 
 
